@@ -10,6 +10,26 @@ statements) -> AST -> one fixed rendering rule per construct, into the vocabular
 lean/EvalexprVerif/Translate/Prelude.lean.  Calls that leave the translated part of the crate are
 mapped through the explicit BOUNDARY tables below (printed into the header of every generated file).
 Anything outside the subset: `UNTRANSLATABLE: <file>::<fn>: <what>` and exit status 2.
+
+---- tree-builder extension (blocks marked `tree-builder extension` below; summary in CHANGES_T2.md)
+* PLACES: `&mut` parameters / `&mut self` are returned next to the result (`ρ × outs`; `?` / panics / `return` carry the CURRENT
+  values: `Rs.try_out` …). A local bound to `X.last_mut().unwrap()`, `&mut P`, `&mut X[i]`, another alias, or the `Some(r)` of
+  `match X.last_mut()` is an ALIAS: a copy of the place's value, written back (functional update of the path: `{ x with f := … }`,
+  `Rs.set_last`, `Rs.set_index`) after every mutation through it. Trusted: Rust's borrow rules (nothing else touches the root
+  while the alias lives). Checked here: a direct mutation of the root / a second alias ends the alias (later use: UNTRANSLATABLE);
+  an alias must not escape (block value, `return`, tuple / struct / `Some(…)`, assignment, `&mut` return type).
+* MUTATION IN BRANCHES: a branching statement (`if`, `if let`, `match`, block) whose branches assign variables declared outside it
+  returns their final values from every branch and rebinds them (`let (v, a, b) ← if …`). The assigned variables are found by a
+  dry run of the translation (`discover`), so mutations through aliases, `pop()`, `&mut` arguments are seen. A rebinding that
+  would be lost inside a sub-expression (`&&` operand, guard, closure) is rejected (`verify_rebinds`), as is an operand that reads
+  a variable a later operand mutates (`check_eval_order`).
+* LOOPS: `loop` / `while` / `while let` ↦ `Rs.loopFix body state` (Prelude, `partial_fixpoint` over `Option`: `none` = divergence; no
+  bound, no termination argument); the state is the tuple of the outer variables the body assigns (declaration order); `break` /
+  `continue` ↦ `Rs.brk state` / `Rs.cont state`. A function that contains a loop, is recursive through a place, or calls such a
+  function is `Option`-valued (`Rs.D.run`, `Rs.callD`); recursion ↦ `partial_fixpoint`. Termination is PROVED by the agreement
+  theorems (`… = some (model value)`). `CONVERGED_CALLS`: callers kept total see divergence as a designated panic outcome.
+* PEEKABLE ITERATION: `let mut it = xs.iter().peekable(); while let Some(x) = it.next()[.cloned()] { … it.peek() … }` ↦
+  `Rs.forPeek xs state (fun x next state => …)`; any other use of `it` is UNTRANSLATABLE.
 """
 import os
 import sys
@@ -422,7 +442,7 @@ class Parser:
                 stmts.append(N("exprstmt", e=e))
             elif self.at("}"):
                 tail = e
-            elif e.kind in ("if", "iflet", "match", "block", "for", "while", "loop"):
+            elif e.kind in ("if", "iflet", "match", "block", "for", "while", "loop", "whilelet"):  # (tree-builder extension: + whilelet)
                 stmts.append(N("exprstmt", e=e))  # block-like expression statement without `;`
             else:
                 self.fail("expected `;` or `}` after an expression")
@@ -592,10 +612,27 @@ class Parser:
             if self.at(";") or self.at("}") or self.at(","):
                 return N("return", e=None)
             return N("return", e=self.expr())
+        # ---- tree-builder extension: loops (`loop`, `while`, `while let`, `break`, `continue`; no labels, no `break value`)
         if t.text == "loop":
             self.next()
             return N("loop", body=self.block())
-        if t.text in ("while", "break", "continue", "unsafe", "move", "async", "await"):
+        if t.text == "while":
+            self.next()
+            if self.at("let"):
+                self.next()
+                pat = self.pattern()
+                self.expect("=")
+                scrut = self.expr(no_struct=True)
+                return N("whilelet", pat=pat, scrut=scrut, body=self.block())
+            cond = self.expr(no_struct=True)
+            return N("while", cond=cond, body=self.block())
+        if t.text in ("break", "continue"):
+            self.next()
+            if not (self.at(";") or self.at("}") or self.at(",")):
+                self.fail(f"`{t.text}` with a label or a value")
+            return N(t.text)
+        # ---- end of the tree-builder extension
+        if t.text in ("while", "loop", "break", "continue", "unsafe", "move", "async", "await"):
             self.fail(f"`{t.text}` expression")
         # path, macro call, struct literal
         segs = [self.ident()]
@@ -1039,13 +1076,34 @@ TEMP = "τ"
 
 def hoistable(st):
     """a statement that may be moved into the enclosing sequence: binds a temporary, or is the rebinding made by a
-    mutation rule (kind `mut`), which is meant to be visible afterwards"""
+    mutation rule (kind `mut`, or — tree-builder extension — a `Rebind` pattern), which is meant to be visible afterwards"""
     kind, p, _ = st
-    return kind == "mut" or p.startswith(TEMP) or p.startswith("_")
+    return kind == "mut" or p.startswith(TEMP) or p.startswith("_") or isinstance(p, Rebind)
+
+
+# ---- tree-builder extension: rebinding of a mutable place
+class Rebind(str):
+    """pattern of a statement that rebinds the root variable of a mutated place (`let x := <new value of x>`): the rebinding
+    must reach the statement list of the enclosing block, so such statements are hoisted like temporaries"""
+
+
+def has_rebind(n):
+    return isinstance(n, Seq) and any(isinstance(p, Rebind) for _, p, _ in n.stmts)
+
+
+def flat_ok(n):
+    return all(hoistable(st) for st in n.stmts)
+# ---- end of the tree-builder extension
 
 
 def bind_stmts(pat, node):
     """statements that bind the value of `node` (monadic or plain) to `pat`"""
+    # ---- tree-builder extension: a (pure) sequence that rebinds a place is hoisted
+    if not node.eff and has_rebind(node) and flat_ok(node):
+        return node.stmts + bind_stmts(pat, node.final)
+    if isinstance(node, PureM) and has_rebind(node.term) and flat_ok(node.term):
+        return node.term.stmts + bind_stmts(pat, node.term.final)
+    # ---- end of the tree-builder extension
     if not node.eff:
         if isinstance(node, Seq) and all(hoistable(st) for st in node.stmts):
             return node.stmts + [("let", pat, node.final)]
@@ -1062,6 +1120,8 @@ def mkseq(stmts, final):
     if not stmts:
         return final
     eff = final.eff or any(k == "bind" for k, _, _ in stmts)
+    if eff and not final.eff and has_rebind(final):   # (tree-builder extension: keep the rebindings at statement level)
+        stmts, final = stmts + final.stmts, final.final
     if eff:
         final = lift(final)
     if isinstance(final, Seq) and final.eff == eff:
@@ -1082,6 +1142,9 @@ TYPE_MAP = {
     "Function": "UserFn", "RangeInclusive": "Rs.RangeInclusive",
     # the explicit stack of slice iterators of tree/iter.rs: a Vec (top = last) of the remaining children
     "NodeIter": "Rs.IterStack", "OperatorIterMut": "Rs.IterStack",
+    # ---- tree-builder extension: tokens; `i32` (operator precedences) is `Nat` like in Model/Operator.lean: the translated code
+    # only compares precedences and writes them as non-negative literals (a `-` on an i32 has no Prelude instance: Lean rejects it)
+    "Token": "Token", "i32": "Nat",
     # `Self` of the default methods of these traits: any context
     "ContextWithMutableVariables": "Ctx", "ContextWithMutableFunctions": "Ctx",
 }
@@ -1148,12 +1211,21 @@ def build_enum_map():
               "BuiltinFunctionsCannotBeDisabled", "OutOfBoundsAccess", "RandNotEnabled"]:
         err[v] = ("Err." + camel(v), "unit", [])
     m["EvalexprError"] = err
+    # ---- tree-builder extension: `Token` of src/token/mod.rs ↦ Model inductive `Token`
+    tok = {}
+    for v in ["Plus", "Minus", "Star", "Slash", "Percent", "Hat", "Eq", "Neq", "Gt", "Lt", "Geq", "Leq", "And", "Or", "Not",
+              "LBrace", "RBrace", "Assign", "PlusAssign", "MinusAssign", "StarAssign", "SlashAssign", "PercentAssign",
+              "HatAssign", "AndAssign", "OrAssign", "Comma", "Semicolon"]:
+        tok[v] = ("Token." + camel(v), "unit", [])
+    for v in ["Identifier", "Float", "Int", "Boolean", "String"]:
+        tok[v] = ("Token." + camel(v), "tuple", [None])
+    m["Token"] = tok
     return m
 
 
 ENUM_MAP = build_enum_map()
 ENUM_FILES = {"Value": "value/mod.rs", "ValueType": "value/value_type.rs", "Operator": "operator/mod.rs",
-              "EvalexprError": "error/mod.rs"}
+              "EvalexprError": "error/mod.rs", "Token": "token/mod.rs"}
 # struct fields: (Rust struct, field) -> Lean projection
 FIELD_MAP = {("Node", "operator"): "Evalexpr.Node.op", ("Node", "children"): "Evalexpr.Node.children",
              ("NodeIter", "stack"): "Rs.IterStack.stack", ("OperatorIterMut", "stack"): "Rs.IterStack.stack",
@@ -1162,10 +1234,12 @@ FIELD_MAP = {("Node", "operator"): "Evalexpr.Node.op", ("Node", "children"): "Ev
 
 # structs built by a struct literal: Rust struct -> (Lean constructor, Rust field names in constructor order)
 STRUCT_MAP = {"HashMapContext": ("HashMapCtx.mk", ["variables", "functions", "without_builtin_functions"]),
-              "NodeIter": ("Rs.IterStack.mk", ["stack"]), "OperatorIterMut": ("Rs.IterStack.mk", ["stack"])}
+              "NodeIter": ("Rs.IterStack.mk", ["stack"]), "OperatorIterMut": ("Rs.IterStack.mk", ["stack"]),
+              "Node": ("Evalexpr.Node.mk", ["operator", "children"])}   # (tree-builder extension: Node)
 FIELD_UPDATE = {("NodeIter", "stack"): "stack", ("OperatorIterMut", "stack"): "stack",
                 ("HashMapContext", "variables"): "vars", ("HashMapContext", "functions"): "funs",
-                ("HashMapContext", "without_builtin_functions"): "noBuiltins"}
+                ("HashMapContext", "without_builtin_functions"): "noBuiltins",
+                ("Node", "operator"): "op", ("Node", "children"): "children"}   # (tree-builder extension: Node)
 
 # ---- BOUNDARY: calls that leave the translated code, mapped to Model definitions (trusted)
 # methods on the context parameter (`&C` / `&mut C`, C: Context): name -> (nargs, prelude rendering, doc)
@@ -1208,8 +1282,12 @@ TRANSLATED_TRAITS = ("Iterator", "EvalexprInt", "EvalexprFloat", "EvalexprNumeri
 # free functions / associated functions, by path suffix
 BOUNDARY_PATHS = {
     ("token", "tokenize"): (1, "Evalexpr.tokenize"),
-    ("tree", "tokens_to_operator_tree"): (1, "Evalexpr.tokensToOperatorTree"),
+    # (tree-builder extension: `tree::tokens_to_operator_tree` is no longer a boundary call, it is translated; see CONVERGED_CALLS)
 }
+# ---- tree-builder extension: calls of a may-diverge (`Option`-valued) translated function from code that is translated as total:
+# (file, fn name) of the callee -> rendered `Rs.converged "<fn>: diverges" (callee args)`: divergence of the callee is a designated
+# panic outcome that no Model function produces, so agreement with the Model includes the callee's termination
+CONVERGED_CALLS = {("tree/mod.rs", "tokens_to_operator_tree")}
 BOUNDARY_NOTES = [
     "`==` / `!=` on Value (derived PartialEq)            ↦ Evalexpr.Value.beq          (Prelude: Rs.PEq Value)",
     "`<` `<=` `>` `>=` on String                          ↦ Evalexpr.strLt              (Prelude: Rs.POrd Str)",
@@ -1229,14 +1307,18 @@ STD_METHODS = {
     ("to_lowercase", 0): ("Rs.to_lowercase", None), ("to_uppercase", 0): ("Rs.to_uppercase", None), ("trim", 0): ("Rs.trim", None),
     ("contains", 1): ("Rs.contains", None), ("ok_or", 1): ("Rs.ok_or", None), ("as_str", 0): ("Rs.clone", None),
     ("map_err", 1): ("Rs.map_err", None), ("ok_or_else", 1): ("Rs.ok_or_else", None), ("try_into", 0): ("Rs.try_into", None),
+    ("copied", 0): ("Rs.copied", None),   # (tree-builder extension)
 }
+# ---- tree-builder extension: mutators that return a value: (name, nargs) -> Prelude function returning (value, new container)
+VALUE_MUTATORS = {("pop", 0): "Rs.pop"}
 STD_MUTATORS = {("push_str", 1): "Rs.push_str", ("push", 1): "Rs.push", ("clear", 0): "Rs.clear", ("insert", 2): "Rs.insert"}
 UNIT_MUTATORS = {"push_str", "push", "clear"}
 STD_PATHS = {("iter", "empty"): (0, "Rs.iter_empty"), ("Default", "default"): (0, "Rs.default"), ("From", "from"): (1, "Rs.into"),
              ("BitAnd", "bitand"): (2, "Rs.bitand"), ("BitOr", "bitor"): (2, "Rs.bitor"), ("BitXor", "bitxor"): (2, "Rs.bitxor"),
              ("Not", "not"): (1, "Rs.bitnot"),
              ("Vec", "new"): (0, "Rs.Vec.new"), ("String", "with_capacity"): (1, "Rs.String.with_capacity"),
-             ("String", "new"): (0, "Rs.Vec.new")}
+             ("String", "new"): (0, "Rs.Vec.new"),
+             ("mem", "discriminant"): (1, "Rs.discriminant")}   # (tree-builder extension: mem::discriminant)
 BINOPS = {"==": "Rs.eq", "!=": "Rs.ne", "<": "Rs.lt", "<=": "Rs.le", ">": "Rs.gt", ">=": "Rs.ge",
           "+": "Rs.add", "-": "Rs.sub", "*": "Rs.mul", "/": "Rs.div", "%": "Rs.rem"}
 
@@ -1244,11 +1326,76 @@ BINOPS = {"==": "Rs.eq", "!=": "Rs.ne", "<": "Rs.lt", "<=": "Rs.le", ">": "Rs.gt
 MODULES = [("value/value_type.rs", "FnValueType"), ("error/mod.rs", "FnError"), ("value/mod.rs", "FnValue"),
            ("value/numeric_types/default_numeric_types.rs", "FnNumeric"), ("function/builtin.rs", "FnBuiltin"),
            ("context/mod.rs", "FnContext"),
-           ("operator/mod.rs", "FnOperator"), ("tree/mod.rs", "FnTree"), ("tree/iter.rs", "FnIter"), ("interface/mod.rs", "FnInterface")]
+           ("operator/mod.rs", "FnOperator"), ("tree/mod.rs", "FnTree"), ("tree/iter.rs", "FnIter"), ("interface/mod.rs", "FnInterface"),
+           ("token/mod.rs", "FnToken")]   # (tree-builder extension: FnToken)
 # finer than per file where the call graph needs it: `impl EvalexprNumericTypes for DefaultNumericTypes` (the casts) is used by
 # value/mod.rs, whose `Value::from_int` is used by the `impl EvalexprInt for i64` of the same file
 MODULE_OVERRIDES = {("value/numeric_types/default_numeric_types.rs", "DefaultNumericTypes"): "FnNumericTypes"}
-MODULE_ORDER = ["FnValueType", "FnNumericTypes", "FnError", "FnValue", "FnNumeric", "FnBuiltin", "FnContext", "FnOperator", "FnTree", "FnIter", "FnInterface"]
+MODULE_ORDER = ["FnValueType", "FnNumericTypes", "FnError", "FnValue", "FnNumeric", "FnBuiltin", "FnContext",
+                "FnOperatorTables", "FnToken",   # (tree-builder extension)
+                "FnOperator", "FnTree",
+                "FnTreeBuild",   # (tree-builder extension)
+                "FnIter", "FnInterface"]
+T2_MODULES = ("FnOperatorTables", "FnToken", "FnTreeBuild")
+# ---- tree-builder extension: per-function module overrides (file, owner, fn name) -> module
+TREE_BUILD_FNS = {("tree/mod.rs", "Node", n): "FnTreeBuild" for n in
+                  ("new", "root_node", "has_enough_children", "has_too_many_children", "insert_back_prioritized")}
+TREE_BUILD_FNS.update({("tree/mod.rs", None, n): "FnTreeBuild" for n in
+                       ("collapse_root_stack_to", "collapse_all_sequences", "tokens_to_operator_tree")})
+TREE_BUILD_FNS.update({("operator/mod.rs", "Operator", n): "FnOperatorTables" for n in
+                       ("value", "variable_identifier_write", "variable_identifier_read", "function_identifier", "precedence",
+                        "is_left_to_right", "is_sequence", "is_leaf", "max_argument_amount", "is_unary")})
+
+
+# =============================================================================== tree-builder extension: data
+class Place:
+    """a place path: a root (local variable / parameter / `self` / alias) and steps ("field", struct, name) | ("last",) | ("index", term)"""
+
+    def __init__(self, root, steps):
+        self.root, self.steps = root, steps
+
+
+class Thread:
+    """the outer variables the branches of a statement assign (None: discovery pass, anything goes); want_value: the statement's value is used"""
+
+    def __init__(self, muts, want_value):
+        self.muts, self.want_value = muts, want_value
+
+
+class Loop:
+    def __init__(self, kind, muts):
+        self.kind, self.muts = kind, muts
+
+
+class Disc:
+    def __init__(self, base, loop_depth):
+        self.base, self.loop_depth, self.found = base, loop_depth, []
+
+
+ALL = object()
+BRANCHING = ("if", "iflet", "match", "block")
+LOOPS = ("loop", "while", "whilelet")
+
+
+def diverging(e):
+    return e is not None and (e.kind in ("return", "break", "continue") or (e.kind == "macro" and e.name in ("unreachable", "panic")))
+
+
+def all_diverge(e):
+    """control never leaves the expression `e` normally (syntactic check): its type is `!`"""
+    if e is None:
+        return False
+    if diverging(e):
+        return True
+    if e.kind == "block":
+        last = e.tail if e.tail is not None else (e.stmts[-1].e if e.stmts and e.stmts[-1].kind == "exprstmt" else None)
+        return all_diverge(last)
+    if e.kind in ("if", "iflet"):
+        return e.els is not None and all_diverge(e.then) and all_diverge(e.els)
+    if e.kind == "match":
+        return bool(e.arms) and all(all_diverge(a.body) for a in e.arms)
+    return False
+# =============================================================================== end of the tree-builder extension: data
 
 
 # =============================================================================== the translator
@@ -1267,6 +1414,11 @@ class GenFn:
         self.instance = None
         # free functions are referenced through the namespace, so that a method of the same name cannot capture them
         self.ref_name = lean_name if "." in lean_name else "Gen." + lean_name
+        # ---- tree-builder extension
+        self.outs = []            # names of the `&mut` places the function returns next to its result: `self` (&mut self), `&mut` parameters
+        self.out_idx = []         # positions of the `&mut` parameters among the non-self parameters
+        self.res_out = False      # outs and a `Result` return type: `?` / panics return (error, current outs)
+        self.div = False          # may diverge: `Option`-valued (contains a loop, is recursive through a place, or calls such a function)
 
 
 class World:
@@ -1321,6 +1473,12 @@ class World:
         return res
 
     def module_of(self, item):
+        if (item.file, item.impl_type, item.name) in TREE_BUILD_FNS:   # (tree-builder extension)
+            return TREE_BUILD_FNS[(item.file, item.impl_type, item.name)]
+        # (tree-builder extension) a helper that is not a root (e.g. extracted from a tree-builder function): the module of its caller
+        if (self.stack and self.stack[-1].module in T2_MODULES and item.file == self.stack[-1].item.file
+                and (item.file, item.impl_type, item.name) not in ROOT_KEYS):
+            return self.stack[-1].module
         if (item.file, item.impl_type) in MODULE_OVERRIDES:
             return MODULE_OVERRIDES[(item.file, item.impl_type)]
         for f, m in MODULES:
@@ -1375,6 +1533,22 @@ class FnTr:
         self.loop_depth = 0
         self.attach = False       # loops run over `List.attach` (membership proofs for the termination of a recursive fn)
         self.nloops = 0
+        # ---- tree-builder extension: the functions of the tree-builder modules are translated with the place discipline (aliases,
+        # discovery of assigned variables, `Option`-valued loops); every other function keeps the phase-4 rules (syntactic
+        # `assigned_locals`, `over` tuples, fuel-indexed `loop`), so that its generated text and its proofs are unchanged
+        self.t2 = g.module in T2_MODULES
+        # ---- tree-builder extension
+        self.aliases = {}         # local name -> Place: a `&mut` into a place (copy-in, write-through)
+        self.alias_saves = []     # per frame: aliases shadowed by the names of the frame
+        self.alias_decl = []      # per frame: aliases declared in the frame
+        self.thread_sets = []     # per open block: outer variables the block may assign (their final values are part of its value)
+        self.pending_thread = None
+        self.discs = []           # active discovery passes
+        self.mut_cache = {}       # id(AST node) -> outer variables the node assigns
+        self.loops = []           # open loops: Loop
+        self.iters = {}           # iterator variable -> Lean term of the list it runs over
+        self.cur_iters = {}       # iterator variable of an open `while let … next()` loop -> name of the lookahead variable
+        self.uses_div = False
 
     def fail(self, what):
         raise Untranslatable(what, self.item.where)
@@ -1452,6 +1626,7 @@ class FnTr:
     def signature(self):
         it, g = self.item, self.g
         params = []
+        out_params = []
         if it.self_kind:
             if it.impl_type not in TYPE_MAP:
                 self.fail(f"`self` of type {it.impl_type}")
@@ -1475,12 +1650,21 @@ class FnTr:
                 else:
                     self.fail("parameter pattern")
                 params.append((nm, self.ltype(ty, False)))
+                if self.t2 and ty.kind == "tref" and ty.mut and it.impl_trait != "From":   # (tree-builder extension, tree-builder modules only: a `&mut` parameter is also returned; not for `From::from`, whose shape is fixed: α → β)
+                    if nm == "_":
+                        self.fail("`&mut` parameter without a name")
+                    g.out_idx.append(k)
+                    out_params.append((nm, self.ltype(ty, True)))
             k += 1
         g.params = params
+        if it.ret is not None and it.ret.kind == "tref" and it.ret.mut:   # (tree-builder extension)
+            self.fail("the function returns a `&mut` reference (an alias that escapes: not expressible by copy-in / write-through)")
         g.ret = self.ltype(it.ret, False)
         g.ret_is_res = g.ret.startswith("Res ")
         g.mut_self = it.self_kind == "&mut"
-        g.has_loop = any(t.kind == "id" and t.text == "loop" for t in it.body_toks)
+        g.outs = ["self"] if g.mut_self else []   # (tree-builder extension)
+        # (tree-builder extension: in the tree-builder modules a `loop` is `Rs.loopFix`, not fuel-indexed)
+        g.has_loop = (not self.t2) and any(t.kind == "id" and t.text == "loop" for t in it.body_toks)
         if g.has_loop:
             # a function with a `loop`: fuel-indexed; `Res`: `.error (.panic …)` when the fuel runs out (or on a panic)
             if g.is_ctx:
@@ -1499,6 +1683,15 @@ class FnTr:
             # `&mut self`: the function also returns the new `self`; no `?` / panics inside (no Model image)
             g.ret = f"{self.ltype(it.ret, True)} × {TYPE_MAP[it.impl_type]}"
             g.ret_is_res = False
+        # ---- tree-builder extension: `&mut` parameters (and `&mut self`) are returned next to the result, in parameter order
+        if out_params and g.is_ctx:
+            self.fail("`&mut` parameters in a function with a context parameter")
+        g.outs = (["self"] if g.mut_self else []) + [n for n, _ in out_params]
+        if out_params:
+            tys = ([TYPE_MAP[it.impl_type]] if g.mut_self else []) + [t for _, t in out_params]
+            g.ret = " × ".join([self.ltype(it.ret, True)] + tys)
+            g.ret_is_res = False
+        g.res_out = bool(g.outs) and self.ltype(it.ret, False).startswith("Res ")
 
     # ---- scopes
     def push(self, names=()):
@@ -1507,13 +1700,27 @@ class FnTr:
             if n not in self.order_of:
                 self.rank += 1
                 self.order_of[n] = self.rank
+        # ---- tree-builder extension: the names of the frame shadow aliases of the same name
+        self.alias_saves.append({})
+        self.alias_decl.append(set())
+        for n in names:
+            self.shadow(n)
 
     def pop(self):
         self.frames.pop()
+        # ---- tree-builder extension: aliases declared in the frame end with it, shadowed ones are visible again
+        for n in self.alias_decl.pop():
+            self.aliases.pop(n, None)
+        for n, (pl, dead) in self.alias_saves.pop().items():
+            if pl is not None:
+                self.aliases[n] = pl
+            if dead:
+                self.dead_refs.add(n)
 
     def declare(self, name):
         self.dead_refs.discard(name)      # a new variable of that name
         self.frames[-1].add(name)
+        self.shadow(name)   # (tree-builder extension)
         self.rank += 1
         self.order_of[name] = self.rank
 
@@ -1630,6 +1837,15 @@ class FnTr:
     def atomize(self, e, stmts):
         """translate `e`; if it has effects, bind it to a temporary in `stmts` and return the temporary"""
         n = self.expr(e)
+        # ---- tree-builder extension: a sub-expression that mutates a place: its rebindings go to the statement level
+        if isinstance(n, PureM) and has_rebind(n.term):
+            n = n.term
+        if has_rebind(n):
+            if not flat_ok(n):
+                self.fail("a mutation inside an expression that also binds names")
+            stmts.extend(n.stmts)
+            n = n.final
+        # ---- end of the tree-builder extension
         if not n.eff:
             if isinstance(n, Seq) and any(st[0] == "mut" for st in n.stmts) and all(hoistable(st) for st in n.stmts):
                 stmts.extend(n.stmts)       # the rebindings of a mutating expression stay visible
@@ -1647,10 +1863,28 @@ class FnTr:
 
     def with_args(self, exprs, build):
         stmts = []
-        atoms = [self.atomize(x, stmts) for x in exprs]
+        atoms, marks = [], []
+        for x in exprs:
+            atoms.append(self.atomize(x, stmts))
+            marks.append(len(stmts))
+        self.check_eval_order(atoms, marks, stmts)   # (tree-builder extension)
         return mkseq(stmts, build(atoms))
 
+    def check_eval_order(self, atoms, marks, stmts):
+        """(tree-builder extension) an operand that reads a variable which a LATER operand of the same expression mutates would see the
+        new value in the rendering (operands are terms, mutations are hoisted statements): rejected"""
+        import re as _re
+        for a, m in zip(atoms, marks):
+            later = {str(p) for _, p, _ in stmts[m:] if isinstance(p, Rebind)}
+            if later and not (isinstance(a, Atom) and a.text.startswith(TEMP)):
+                text = render(a, 0)
+                for name in later:
+                    if _re.search(r"(?<![\w.«])" + _re.escape(name) + r"(?![\w»])", text):
+                        self.fail(f"evaluation order: an operand reads `{name}`, which a later operand of the same expression mutates")
+
     def need_res(self, what):
+        if self.g.res_out:   # (tree-builder extension: the `_out` variants return (error, current `&mut` values))
+            return
         if not self.g.ret_is_res:
             self.fail(what + " in a function that does not return a Result (a panic has no Model image there)")
 
@@ -1695,6 +1929,7 @@ class FnTr:
         self.fail("literal " + e.text)
 
     def e_tuple(self, e):
+        self.no_bare_alias(e.items, "a tuple")   # (tree-builder extension)
         return self.with_args(e.items, lambda a: Tup(a))
 
     def e_unary(self, e):
@@ -1730,20 +1965,22 @@ class FnTr:
 
     def e_try(self, e):
         self.need_res("`?`")
-        return self.with_args([e.e], lambda a: App("Rs.try", a, eff=True))
+        return self.with_args([e.e], lambda a: self.flow_app("Rs.try", a))
 
     def e_return(self, e):
-        wrap = (lambda a: Tup([a, Atom("self")])) if self.g.mut_self else (lambda a: a)
+        wrap = (lambda a: Tup([a] + [Atom(lname(o)) for o in self.g.outs])) if self.g.outs else (lambda a: a)   # (tree-builder extension: all outs; was `self` only)
         if getattr(self.g, "has_loop", False) and not self.in_closure:
             inner = wrap
             wrap = lambda a: App("Except.ok", [inner(a)])
+        if e.e is not None:
+            self.no_bare_alias([e.e], "`return`")   # (tree-builder extension)
         if e.e is None:
             return App("Rs.ret", [wrap(Tup([]))], eff=True)
         return self.with_args([e.e], lambda a: App("Rs.ret", [wrap(a[0])], eff=True))
 
     def e_index(self, e):
         self.need_res("indexing")
-        return self.with_args([e.a, e.i], lambda a: App("Rs.index", [self.site("index out of bounds")] + a, eff=True))
+        return self.with_args([e.a, e.i], lambda a: self.flow_app("Rs.index", [self.site("index out of bounds")] + a))
 
     def e_macro(self, e):
         if e.name == "vec":
@@ -1754,10 +1991,11 @@ class FnTr:
                 exprs.append(p.expr())
                 if not p.eof():
                     p.fail("trailing tokens in vec!")
+            self.no_bare_alias(exprs, "vec![…]")   # (tree-builder extension)
             return self.with_args(exprs, lambda a: ListLit(a))
         if e.name == "unreachable":
             self.need_res("unreachable!")
-            return App("Rs.panic", [self.site("unreachable!()")], eff=True)
+            return self.flow_app("Rs.panic", [self.site("unreachable!()")])
         if e.name == "matches":
             items = split_commas(e.toks)
             if len(items) != 2:
@@ -1883,6 +2121,7 @@ class FnTr:
         if sorted(given) != sorted(fields) or len(given) != len(e.fields):
             self.fail(f"fields of {v[0]}::{v[1]}: {sorted(given)} vs {sorted(fields)}")
         # evaluation order = source order of the field initialisers; argument order = constructor order
+        self.no_bare_alias([x for _, x in e.fields], "a struct literal")   # (tree-builder extension)
         stmts = []
         atoms = {}
         for name, x in e.fields:
@@ -1901,7 +2140,9 @@ class FnTr:
                 if self.g.is_ctx and name == self.g.ctx_param and not self.is_shadowed_ctx():
                     self.fail("the context parameter used as a value")
                 if name in self.dead_refs:
-                    self.fail(f"`{name}` is used after it was consumed (assignment through a map-entry reference / swap_remove)")
+                    self.fail(f"`{name}` is used after it was consumed (assignment through a map-entry reference / swap_remove / a `&mut` alias whose place was assigned otherwise)")
+                if name in self.iters:   # (tree-builder extension)
+                    self.fail(f"the iterator `{name}` is used other than by `while let … = {name}.next()` / `{name}.peek()`")
                 return Atom(lname(name))
             if name == "None":
                 return Atom("none")
@@ -1990,6 +2231,8 @@ class FnTr:
             recv, exprs = exprs[0], exprs[1:]      # `Type::method(receiver, …)`
         if len(exprs) != len(g.item.params):
             self.fail(f"arity of the call to {g.lean_name}")
+        if g.outs or g.div:   # (tree-builder extension: `&mut` places / may-diverge callee)
+            return self.call_gen_places(g, recv, exprs)
         fresh = None
         if g.is_ctx:
             c = exprs.pop(g.ctx_index)
@@ -2020,6 +2263,7 @@ class FnTr:
             if n != 1:
                 self.fail("arity of " + segs[0])
             head = {"Ok": "Except.ok", "Err": "Except.error", "Some": "some"}[segs[0]]
+            self.no_bare_alias(e.args, segs[0] + "(…)")   # (tree-builder extension)
             return self.with_args(e.args, lambda a: App(head, a))
         if len(segs) == 1 and self.is_local(segs[0]):
             # a local variable of function type (`fn(..) -> ..` parameter): application
@@ -2059,6 +2303,11 @@ class FnTr:
             if n == 0:
                 return App(head, [], eff=True, ctx=True)
             return self.with_args(e.args, lambda a: App(head, a, eff=True, ctx=True))
+        # ---- tree-builder extension: iterators, `pop`, `last_mut().unwrap()` as a place read
+        r = self.e_mcall_ext(e) if self.t2 else None
+        if r is not None:
+            return r
+        # ---- end of the tree-builder extension
         if (name, n) in STD_MUTATORS:
             self.fail(f"`{name}` (a mutation) in expression position")
         prim = self.item.impl_type if self.item.impl_type in ("i64", "f64") else None
@@ -2114,15 +2363,14 @@ class FnTr:
             head, effect = STD_METHODS[(name, n)]
             if effect == "panic":
                 self.need_res("`" + name + "()`")
-                return self.with_args([e.recv] + e.args, lambda a: App(head, [self.site(name + " on None")] + a, eff=True))
+                return self.with_args([e.recv] + e.args, lambda a: self.flow_app(head, [self.site(name + " on None")] + a))
             return self.with_args([e.recv] + e.args, lambda a: App(head, a))
         if (name, n) in BOUNDARY_METHODS:
             head = BOUNDARY_METHODS[(name, n)]
             return self.with_args([e.recv] + e.args, lambda a: App(head, a))
         # crate methods: inherent and trait-default ones; must be unique by (name, arity)
         cands = [it for it in crate if it.impl_trait in (None,) + TRANSLATED_TRAITS]
-        if len(cands) == 1 and cands[0].self_kind == "&mut":
-            self.fail(f"`&mut self` method `{name}` called in expression position")
+        # (tree-builder extension: a `&mut self` method called on a place is handled by call_gen -> call_gen_places)
         if len(cands) == 1:
             g = self.w.require(cands[0])
             self.g.deps.append(g)
@@ -2157,22 +2405,28 @@ class FnTr:
         return n
 
     def e_block(self, e):
-        return self.block(e)
+        return self.block(e, thread=self.take_thread())   # (tree-builder extension: thread)
 
     def e_if(self, e, over=None):
+        tc = self.take_thread()   # (tree-builder extension: the branches return the variables they assign)
         stmts = []
         c = self.atomize(e.cond, stmts)
-        t = self.block(e.then, over)
+        t = self.block(e.then, over, thread=tc)
         if over is not None:
             el = self.with_tail(e.els, over)
         elif e.els is None:
-            el = Tup([])
+            el = Tup([]) if tc is None else self.block(N("block", stmts=[], tail=None), thread=tc)
+        elif tc is not None:
+            el = self.arm_threaded(e.els, tc)
         else:
             el = self.expr(e.els)
         eff = t.eff or el.eff
         if eff:
             t, el = lift(t), lift(el)
-        return mkseq(stmts, If(c, t, el, eff, t.ctx or el.ctx))
+        res = mkseq(stmts, If(c, t, el, eff, t.ctx or el.ctx))
+        if tc is not None and isinstance(res, Seq):
+            res.blockscope = True
+        return res
 
     def e_iflet(self, e, over=None):
         arms = [N("arm", pat=e.pat, guard=None, body=e.then)]
@@ -2205,6 +2459,7 @@ class FnTr:
         return (fld, Atom(lname(k.segs[0]))) if sc.name == "get_mut" else (fld, None)
 
     def e_match(self, e, over=None):
+        tc = self.take_thread()   # (tree-builder extension: the arms return the variables they assign)
         stmts = []
         live = []
         for a in e.arms:
@@ -2221,8 +2476,11 @@ class FnTr:
             if over is not None:
                 self.fail("string match whose arms assign outer variables")
             return self.string_match(e)
-        gm = self.get_mut_scrutinee(e)
-        if gm is not None:
+        lm = self.last_mut_scrutinee(e, stmts) if self.t2 else None   # (tree-builder extension: `match X.last_mut() { Some(r) … }`)
+        gm = self.get_mut_scrutinee(e) if lm is None else None
+        if lm is not None:
+            s = lm[1]
+        elif gm is not None:
             # the reference is read as the current value of the entry; writes through it are `insert`s (see self_stmt)
             cur = App(FIELD_MAP[(self.item.impl_type, gm[0])], [Atom("self")])
             s = App("Rs.get", [cur, gm[1]]) if gm[1] is not None else App("Rs.last", [cur])
@@ -2241,12 +2499,26 @@ class FnTr:
             if gm is not None:
                 for b in bound:
                     self.entry_refs[b] = gm
+            if lm is not None:   # (tree-builder extension: the bound name is an alias of the last element)
+                for b in bound:
+                    self.new_alias(b, Place(lm[0].root, lm[0].steps + [("last",)]))
             guard = self.expr(a.guard) if a.guard is not None else None
-            body = self.expr(a.body) if over is None else self.with_tail(a.body, over)
+            if over is not None:
+                body = self.with_tail(a.body, over)
+            # (tree-builder extension: a block body shares the frame of the pattern's names, so that it may assign them)
+            elif a.body.kind == "block" and self.t2:
+                body = self.block(a.body, thread=tc, merge=True)
+            elif tc is not None:
+                body = self.arm_threaded(a.body, tc)
+            else:
+                body = self.expr(a.body)
             self.entry_refs = saved_refs
             self.pop()
             arms.append((pats, guard, body, self.irrefutable(a.pat)))
-        return mkseq(stmts, self.build_match(s, arms))
+        res = mkseq(stmts, self.build_match(s, arms))
+        if tc is not None and isinstance(res, Seq):
+            res.blockscope = True
+        return res
 
     def string_match(self, e):
         """`match s { "lit" => e, …, _ => d }` on strings: a chain of `if s == "lit"` (string literals are not constructors)"""
@@ -2330,10 +2602,19 @@ class FnTr:
         self.pop()
         return mkseq(bind_stmts("_", n), PureM(Atom(self.state_text(over))))
 
-    def block(self, b, over=None):
-        self.push(over or ())
+    def block(self, b, over=None, thread=None, merge=False):
+        # (tree-builder extension: `thread`: the outer variables the block may assign — their final values become part of the block's
+        # value; `merge`: the block shares the frame pushed by the caller, i.e. the names of a pattern)
+        if thread is not None and b.tail is None and b.stmts and b.stmts[-1].kind == "exprstmt" and diverging(b.stmts[-1].e):
+            # `…; return e;` / `…; break;` at the end of a branch: the block has the type of the other branches (`!` coerces)
+            b = N("block", stmts=b.stmts[:-1], tail=b.stmts[-1].e)
+        if not merge:
+            self.push(over or ())
+        self.thread_sets.append(set() if thread is None else ALL if thread.muts is None else set(thread.muts))
         last = b.tail if b.tail is not None else (b.stmts[-1].e if b.stmts and b.stmts[-1].kind == "exprstmt" else None)
-        self.div.append(last is not None and last.kind == "return")
+        # (tree-builder extension: was `last.kind == "return"`; now also unreachable! ("exit") and break / continue ("loop"))
+        self.div.append(False if last is None else "exit" if (last.kind == "return" or (self.t2 and diverging(last) and last.kind == "macro"))
+                        else "loop" if (self.t2 and diverging(last)) else False)
         saved_refs, saved_dead = dict(self.entry_refs), set(self.dead_refs)
         saved_globs = list(self.globs)
         stmts = []
@@ -2348,14 +2629,45 @@ class FnTr:
             if tail is not None:
                 self.stmt(N("exprstmt", e=tail), stmts)
             final = PureM(Atom(self.state_text(over)))
+            self.thread_sets.pop()
         else:
-            final = self.expr(tail) if tail is not None else Tup([])
+            # ---- tree-builder extension: a branching tail expression whose branches assign outer variables
+            final = None
+            if tail is not None:
+                self.no_bare_alias([tail], "the value of a block")
+            if self.t2 and tail is not None and tail.kind in BRANCHING:
+                if thread is not None and not thread.want_value:
+                    # the value of this block is not used (a statement-position branch / a loop body): so is the value of its tail, `()`
+                    if self.threaded(tail, stmts, False) is not None:
+                        final = Tup([])
+                else:
+                    final = self.threaded(tail, stmts, True)
+            if final is None:
+                final = self.expr(tail) if tail is not None else Tup([])
+            if thread is not None and thread.muts is not None and not diverging(tail):
+                names = [Atom(lname(m)) for m in thread.muts]
+                if thread.want_value:
+                    if final.eff or isinstance(final, Seq):
+                        t = self.temp()
+                        stmts.extend(bind_stmts(t, final))
+                        final = Atom(t)
+                    final = Tup([final] + names)
+                else:
+                    if not (isinstance(final, Tup) and not final.items):
+                        stmts.extend(bind_stmts("_", final))
+                    final = names[0] if len(names) == 1 else Tup(names)
+            self.thread_sets.pop()
+            # ---- end of the tree-builder extension
         self.globs = saved_globs
         if self.div.pop():
             # control does not leave a block that ends with `return`: what it did to the references is not visible after it
             self.entry_refs, self.dead_refs = saved_refs, saved_dead
-        self.pop()
-        return mkseq(stmts, final)
+        if not merge:
+            self.pop()
+        res = mkseq(stmts, final)
+        if isinstance(res, Seq):
+            res.blockscope = True   # (tree-builder extension: the statements of a block are a scope for rebindings)
+        return res
 
     def local_target(self, e):
         """name of the local variable `e` denotes (for a mutation), if it lives in the innermost frame"""
@@ -2363,7 +2675,7 @@ class FnTr:
             e = e.e
         if e.kind == "path" and len(e.segs) == 1 and self.is_local(e.segs[0]):
             name = e.segs[0]
-            if name not in self.frames[-1]:
+            if not self.can_mutate(name):   # (tree-builder extension: was `name not in self.frames[-1]`)
                 self.fail(f"mutation of `{name}` from a nested block / branch (the rebinding would not escape)")
             return name
         return None
@@ -2380,6 +2692,8 @@ class FnTr:
         if st.kind == "let":
             if st.init is None:
                 self.fail("`let` without initialiser")
+            if self.t2 and self.let_ext(st, stmts):   # (tree-builder extension: iterators, aliases, branching initialisers that assign)
+                return
             init = self.expr(st.init)
             bound = []
             if not self.irrefutable(st.pat):
@@ -2392,9 +2706,14 @@ class FnTr:
             stmts.extend(bind_stmts(ptxt, init))
             for b in bound:
                 self.declare(b)
+                if b in self.g.outs:   # (tree-builder extension)
+                    self.fail(f"`let {b}` shadows a `&mut` parameter")
             return
         e = st.e
+        if self.t2 and self.stmt_ext(e, stmts):   # (tree-builder extension: loops, branching statements that assign, mutations of places)
+            return
         if self.g.mut_self and self.self_stmt(e, stmts):
+            self.after_rebind("self", stmts)   # (tree-builder extension)
             return
         if e.kind == "mcall" and (e.name, len(e.args)) in STD_MUTATORS:
             name = self.local_target(e.recv)
@@ -2403,12 +2722,15 @@ class FnTr:
             head = STD_MUTATORS[(e.name, len(e.args))]
             n = self.with_args(e.args, lambda a: App(head, [Atom(lname(name))] + a))
             stmts.extend(bind_stmts(lname(name), n))
+            self.after_rebind(name, stmts)   # (tree-builder extension)
             return
         if e.kind == "assign":
             name = self.local_target(e.lhs)
             if name is None or e.op != "=":
                 self.fail("assignment to something that is not a local variable")
+            self.no_bare_alias([e.rhs], "an assignment")   # (tree-builder extension)
             stmts.extend(bind_stmts(lname(name), self.expr(e.rhs)))
+            self.after_rebind(name, stmts)   # (tree-builder extension)
             return
         if e.kind == "for":
             self.for_stmt(e, stmts)
@@ -2416,7 +2738,7 @@ class FnTr:
         if e.kind == "loop":
             stmts.append(("bind", "_ : Unit", self.loop_node(e)))
             return
-        if e.kind in ("if", "iflet", "match"):
+        if not self.t2 and e.kind in ("if", "iflet", "match"):   # (tree-builder extension: the tree-builder modules use `threaded`, see stmt_ext)
             muts = []
             self.assigned_locals(e, muts)
             if muts:
@@ -2429,7 +2751,7 @@ class FnTr:
                 stmts.append(("bind" if n.eff else "let", self.state_text(muts), n))
                 return
         n = self.expr(e)
-        diverges = e.kind == "return" or (e.kind == "macro" and e.name == "unreachable")
+        diverges = e.kind in ("return", "break", "continue") or (e.kind == "macro" and e.name == "unreachable") or (self.t2 and all_diverge(e))   # (tree-builder extension: break, continue, branching statements all of whose branches diverge)
         stmts.extend(bind_stmts("_ : Unit" if diverges else "_", n))
 
     def self_field(self, e):
@@ -2443,7 +2765,8 @@ class FnTr:
     def check_self_mut(self):
         # directly in the body block, in a block that ends with `return` (which carries the current `self`), or in a branch /
         # loop body whose state tuple contains `self`
-        if len(self.frames) != 2 and not (self.div and self.div[-1]) and "self" not in self.frames[-1]:
+        if (len(self.frames) != 2 and not (self.div and self.div[-1]) and "self" not in self.frames[-1]
+                and not (self.t2 and self.can_mutate("self"))):   # (tree-builder extension: can_mutate)
             self.fail("`self` is changed from a nested block / branch that can fall through (the rebinding would not escape)")
 
     def set_entry(self, fld, key, val):
@@ -2524,6 +2847,8 @@ class FnTr:
                 self.assigned_locals(v, acc)
 
     def e_loop(self, e):
+        if self.t2:   # (tree-builder extension: loops are statements there, see loop_stmt)
+            self.fail("a loop in expression position")
         return self.loop_node(e)
 
     def loop_node(self, e):
@@ -2550,7 +2875,7 @@ class FnTr:
         muts = []
         self.assigned_locals(e.body, muts)
         for m in muts:
-            if m not in self.frames[-1] and m != "self":
+            if not self.can_mutate(m) and m != "self":   # (tree-builder extension: can_mutate; was `m not in self.frames[-1]`)
                 self.fail(f"the loop assigns `{m}`, which is not a variable of the enclosing block")
         muts.sort(key=lambda m: self.order_of[m])
         self.loop_depth += 1
@@ -2565,6 +2890,8 @@ class FnTr:
         if not muts:
             state = "()"
         self.push(bound + muts)
+        self.loops.append(Loop("for", None))   # (tree-builder extension: `break` / `continue` do not address a `for`)
+        self.thread_sets.append(set())
         saved_globs = list(self.globs)
         body_stmts = []
         for st in e.body.stmts:
@@ -2572,6 +2899,8 @@ class FnTr:
         if e.body.tail is not None:
             self.stmt(N("exprstmt", e=e.body.tail), body_stmts)
         self.globs = saved_globs
+        self.thread_sets.pop()
+        self.loops.pop()
         self.pop()
         body = mkseq(body_stmts, PureM(Atom(state)))
         if self.attach:
@@ -2582,6 +2911,592 @@ class FnTr:
         spat = state if muts else "_"
         loop = App("Rs.forIn", [it, Atom(state), Lam([ptxt, spat], body)], eff=True, ctx=body.ctx)
         stmts.append(("bind", spat, loop))
+        for m in muts:
+            self.after_rebind(m, stmts)   # (tree-builder extension)
+
+    # =========================================================================== tree-builder extension: methods
+    # ---- tree-builder extension: small helpers
+    def take_thread(self):
+        tc, self.pending_thread = self.pending_thread, None
+        return tc
+
+    def cur_outs(self):
+        """the current values of the `&mut` places the function returns"""
+        outs = [Atom(lname(o)) for o in self.g.outs]
+        return outs[0] if len(outs) == 1 else Tup(outs)
+
+    def flow_app(self, head, args):
+        """`?` / panic / unwrap / index: in a function that returns `&mut` places, the early exit carries their current values"""
+        if self.g.res_out:
+            return App(head + "_out", args + [self.cur_outs()], eff=True)
+        return App(head, args, eff=True)
+
+    def field_struct(self, fname):
+        """the struct of the field table that has a field `fname`, if the name identifies it among the structs of the crate"""
+        cands = [st for (st, f) in FIELD_MAP if f == fname]
+        decls = {st for table in STRUCTS.values() for st, fields in table.items() if fname in fields}
+        if len(cands) == 1 and decls <= {cands[0]}:
+            return cands[0]
+        return None
+
+    def mut_key(self, name):
+        """order of the components of a threaded tuple / loop state: declaration order (phase 4's `order_of`)"""
+        return (self.frame_index(name), self.order_of.get(name, 0), name)
+
+    def frame_index(self, name):
+        for i in range(len(self.frames) - 1, -1, -1):
+            if name in self.frames[i]:
+                return i
+        return 0
+
+    def can_mutate(self, name):
+        """may the current block rebind `name`? (its own variables; the parameters in the body block; the variables it threads)"""
+        ts = self.thread_sets[-1] if self.thread_sets else set()
+        if ts is ALL or name in ts:
+            return True
+        if self.div and self.div[-1]:
+            return True         # the block ends with `return`: control does not leave it, the rebinding need not escape
+        if name in self.frames[-1]:
+            return True
+        return len(self.frames) == 2 and name in self.frames[0]
+
+    def note_mut(self, name):
+        k = self.div[-1] if self.div else False
+        if k == "exit":
+            return              # inside a block that ends with `return` / a panic: nothing to thread out
+        if self.discs:
+            fi = self.frame_index(name)
+            for d in self.discs:
+                if k == "loop" and d.loop_depth >= len(self.loops):
+                    continue    # inside a block that ends with `break` / `continue`: only the loop (and what encloses it) sees the value
+                if fi < d.base and name not in d.found:
+                    d.found.append(name)
+
+    # ---- tree-builder extension: places and aliases
+    def bare_alias(self, e):
+        """the alias name if `e` is a bare use of a `&mut` alias as a value (`a`, `&mut *a`, `(a)`)"""
+        while e.kind in ("paren", "ref") or (e.kind == "unary" and e.op == "*"):
+            e = e.e
+        if e.kind == "path" and len(e.segs) == 1 and e.segs[0] in self.aliases and self.is_local(e.segs[0]):
+            return e.segs[0]
+        return None
+
+    def no_bare_alias(self, exprs, where):
+        """a `&mut` alias stored somewhere (returned, put into a tuple / struct / Option, yielded by a block) would live on as a second
+        reference to the place; the copy-in / write-through discipline cannot express that"""
+        for x in exprs:
+            a = self.bare_alias(x)
+            if a is not None:
+                self.fail(f"the `&mut` alias `{a}` escapes into {where}")
+
+    def shadow(self, n):
+        pl, dead = self.aliases.pop(n, None), n in self.dead_refs
+        if (pl is not None or dead) and self.alias_saves and n not in self.alias_saves[-1]:
+            self.alias_saves[-1][n] = (pl, dead)
+        self.dead_refs.discard(n)
+
+    def new_alias(self, name, pl):
+        """`name` (already declared, holding a copy of the place's value) is a `&mut` into `pl`"""
+        for a, q in list(self.aliases.items()):
+            if q.root == pl.root and a != pl.root:
+                self.kill_alias(a)      # two live `&mut` into one root cannot both be used (borrow rules): the older one ends
+        self.aliases[name] = pl
+        self.alias_decl[-1].add(name)
+
+    def kill_alias(self, a):
+        self.aliases.pop(a, None)
+        self.dead_refs.add(a)
+        for b, q in list(self.aliases.items()):
+            if q.root == a:
+                self.kill_alias(b)
+
+    def place_of(self, e):
+        """the place a Rust expression denotes: a local variable / parameter / `self` / alias, followed by fields,
+        `.last_mut().unwrap()`, `[i]` — or None"""
+        while e.kind in ("paren", "ref") or (e.kind == "unary" and e.op == "*"):
+            e = e.e
+        if e.kind == "path" and len(e.segs) == 1:
+            name = e.segs[0]
+            if name == "self":
+                return Place("self", []) if self.item.self_kind else None
+            if self.is_local(name) and not (self.g.is_ctx and name == self.g.ctx_param and not self.is_shadowed_ctx()):
+                if name in self.dead_refs:
+                    self.fail(f"`{name}` (a `&mut` alias) is used after the place it refers to was assigned otherwise")
+                if name in self.iters:
+                    return None
+                return Place(name, [])
+            return None
+        if e.kind == "field":
+            p = self.place_of(e.e)
+            if p is None:
+                return None
+            if p.root == "self" and not p.steps and (self.item.impl_type, e.name) in FIELD_UPDATE:
+                st = self.item.impl_type
+            else:
+                st = self.field_struct(e.name)
+            if st is None or (st, e.name) not in FIELD_UPDATE:
+                return None
+            return Place(p.root, p.steps + [("field", st, e.name)])
+        if e.kind == "mcall" and e.name == "unwrap" and not e.args and e.recv.kind == "mcall" and e.recv.name == "last_mut" and not e.recv.args:
+            p = self.place_of(e.recv.recv)
+            return None if p is None else Place(p.root, p.steps + [("last",)])
+        if e.kind == "index":
+            p = self.place_of(e.a)
+            if p is None:
+                return None
+            i = e.i
+            while i.kind == "paren":
+                i = i.e
+            if i.kind == "lit" and i.lk == "num" and i.text.isdigit():
+                return Place(p.root, p.steps + [("index", Atom(i.text))])
+            if i.kind == "path" and len(i.segs) == 1 and self.is_local(i.segs[0]):
+                return Place(p.root, p.steps + [("index", Atom(lname(i.segs[0])))])
+            self.fail("a place `X[i]` whose index is neither a literal nor a local variable")
+        return None
+
+    def access(self, pl, stmts, upto=None):
+        """the chain of values along the place path: [root, …, value of the place]; `unwrap` / index checks go to `stmts`"""
+        t = Atom("self" if pl.root == "self" else lname(pl.root))
+        chain = [t]
+        for st in (pl.steps if upto is None else pl.steps[:upto]):
+            if st[0] == "field":
+                t = App(FIELD_MAP[(st[1], st[2])], [t])
+            elif st[0] == "last":
+                self.need_res("`last_mut().unwrap()`")
+                tmp = self.temp()
+                stmts.extend(bind_stmts(tmp, self.flow_app("Rs.unwrap", [self.site("unwrap on None"), App("Rs.last", [t])])))
+                t = Atom(tmp)
+            else:
+                self.need_res("indexing")
+                tmp = self.temp()
+                stmts.extend(bind_stmts(tmp, self.flow_app("Rs.index", [self.site("index out of bounds"), t, st[1]])))
+                t = Atom(tmp)
+            chain.append(t)
+        return chain
+
+    def store(self, pl, chain, val, stmts, via=None):
+        """the functional update of the place path: rebinds the root"""
+        new = val
+        for i in range(len(pl.steps) - 1, -1, -1):
+            st, c = pl.steps[i], chain[i]
+            if st[0] == "field":
+                new = Atom("{ " + render(c, 0, True) + " with " + FIELD_UPDATE[(st[1], st[2])] + " := " + render(new, 0) + " }")
+            elif st[0] == "last":
+                new = App("Rs.set_last", [c, new])
+            else:
+                new = App("Rs.set_index", [c, st[1], new])
+        self.rebind(pl.root, new, stmts, via)
+
+    def rebind(self, root, new, stmts, via=None):
+        if not self.can_mutate(root):
+            self.fail(f"mutation of `{root}` from a nested block / branch / closure that does not return it (the rebinding would not escape)")
+        stmts.append(("let", Rebind("self" if root == "self" else lname(root)), new))
+        self.after_rebind(root, stmts, via)
+
+    def after_rebind(self, root, stmts, via=None):
+        """`root` has just been rebound: record it, end the aliases that hold a stale copy, write through if it is an alias"""
+        self.note_mut(root)
+        for a, q in list(self.aliases.items()):
+            if q.root == root and a != via:
+                self.kill_alias(a)
+        if root in self.aliases:
+            pl = self.aliases[root]
+            chain = self.access(pl, stmts, upto=max(len(pl.steps) - 1, 0))
+            self.store(pl, chain, Atom(lname(root)), stmts, via=root)
+
+    def mutate_place(self, pl, f, stmts):
+        """read-modify-write of a place: the new value is `f(current value)`"""
+        chain = self.access(pl, stmts)
+        self.store(pl, chain, f(chain[-1]), stmts)
+
+    # ---- tree-builder extension: threading of assigned variables through branches and loops
+    def snapshot(self):
+        return (self.ntemp, dict(self.entry_refs), set(self.dead_refs), dict(self.aliases), [dict(x) for x in self.alias_saves],
+                [set(x) for x in self.alias_decl], [set(f) for f in self.frames], list(self.globs), self.ctx_shadowed, list(self.div),
+                self.nloops, list(self.thread_sets), list(self.loops), dict(self.iters), dict(self.cur_iters), self.uses_div,
+                len(self.g.deps))
+
+    def restore(self, snap):
+        (self.ntemp, self.entry_refs, self.dead_refs, self.aliases, self.alias_saves, self.alias_decl, self.frames, self.globs,
+         self.ctx_shadowed, self.div, self.nloops, self.thread_sets, self.loops, self.iters, self.cur_iters, self.uses_div, ndeps) = snap
+        del self.g.deps[ndeps:]
+
+    def reset_pass(self):
+        self.ntemp, self.nloops, self.frames, self.globs, self.ctx_shadowed = 0, 0, [], [], False
+        self.rank, self.order_of, self.loop_depth, self.in_closure = 0, {}, 0, False
+        self.entry_refs, self.dead_refs, self.aliases, self.alias_saves, self.alias_decl = {}, set(), {}, [], []
+        self.thread_sets, self.pending_thread, self.discs, self.loops, self.iters, self.cur_iters = [], None, [], [], {}, {}
+        self.div = []
+
+    def discover(self, e):
+        """the variables declared outside the statement `e` that `e` assigns (directly, through an alias, by `pop`, by passing
+        them as `&mut`): found by a dry run of the translation of `e` whose output is dropped"""
+        key = id(e)
+        if key in self.mut_cache:
+            return self.mut_cache[key]
+        snap = self.snapshot()
+        d = Disc(len(self.frames), len(self.loops))
+        self.discs.append(d)
+        try:
+            if e.kind in LOOPS:
+                self.loop_core(e, None)
+            else:
+                self.pending_thread = Thread(None, False)
+                self.expr(e)
+        finally:
+            self.discs.pop()
+            self.pending_thread = None
+            self.restore(snap)
+        muts = sorted(d.found, key=self.mut_key)
+        self.mut_cache[key] = muts
+        return muts
+
+    def threaded(self, e, stmts, want_value):
+        """the branching expression `e` (if / if let / match / block) at statement level: if its branches assign outer variables,
+        every branch returns their final values (next to its own value if `want_value`) and the statement rebinds them.
+        Returns the value (want_value) / True, or None if `e` assigns nothing (the caller translates it as before)."""
+        muts = self.discover(e)
+        if not muts:
+            return None
+        for m in muts:
+            if not self.can_mutate(m):
+                self.fail(f"mutation of `{m}` from a nested block / branch / closure that does not return it (the rebinding would not escape)")
+        self.pending_thread = Thread(muts, want_value)
+        n = self.expr(e)
+        if self.pending_thread is not None:
+            raise AssertionError("thread context not consumed")
+        names = [("self" if m == "self" else lname(m)) for m in muts]
+        v = self.temp() if want_value else None
+        pat = names[0] if (len(names) == 1 and not want_value) else "(" + ", ".join(([v] if want_value else []) + names) + ")"
+        stmts.extend(bind_stmts(pat, n))
+        for m in muts:
+            self.note_mut(m)
+            for a, q in list(self.aliases.items()):
+                if q.root == m and a not in muts:
+                    self.kill_alias(a)
+        return Atom(v) if want_value else True
+
+    def arm_threaded(self, body, tc):
+        """a branch / arm body that is not a block, in a threaded statement"""
+        if body.kind == "block":
+            return self.block(body, thread=tc)
+        if body.kind in BRANCHING:
+            self.pending_thread = tc
+            return self.expr(body)
+        return self.block(N("block", stmts=[], tail=body), thread=tc)
+
+    def last_mut_scrutinee(self, e, stmts):
+        """`X.last_mut()` (X a place) as the scrutinee of `match` / `if let`: (place X, the scrutinee term `Rs.last X`) or None.
+        A name bound by a `Some(r)` arm is an alias of the last element."""
+        sc = e.scrut
+        while sc.kind == "paren":
+            sc = sc.e
+        if not (sc.kind == "mcall" and sc.name == "last_mut" and not sc.args):
+            return None
+        pl = self.place_of(sc.recv)
+        if pl is None:
+            self.fail("`last_mut()` on something that is not a place")
+        for a in e.arms:
+            p = a.pat
+            ok = (p.kind == "ptuplestruct" and p.segs == ["Some"] and len(p.items) == 1 and p.items[0].kind in ("ppath", "pident")
+                  and self.irrefutable(p.items[0])) or p.kind == "pwild" or (p.kind == "ppath" and p.segs == ["None"])
+            if not ok:
+                self.fail("`last_mut()` must be matched by `Some(r)` / `None` / `_` arms")
+        chain = self.access(pl, stmts)
+        return pl, App("Rs.last", [chain[-1]])
+
+    def let_ext(self, st, stmts):
+        init = st.init
+        while init.kind == "paren":
+            init = init.e
+        simple = st.pat.kind == "pident" or (st.pat.kind == "ppath" and len(st.pat.segs) == 1 and not st.pat.segs[0][0].isupper())
+        name = (st.pat.name if st.pat.kind == "pident" else st.pat.segs[0]) if simple else None
+        # 1. `let mut it = xs.iter().peekable();` / `let mut it = xs.iter();`: an iterator over a list
+        x = init
+        if x.kind == "mcall" and x.name == "peekable" and not x.args:
+            x = x.recv
+        if x.kind == "mcall" and x.name == "iter" and not x.args and x is not init or (init.kind == "mcall" and init.name == "iter" and st.pat.kind == "pident"):
+            if not simple:
+                self.fail("iterator bound by a pattern")
+            lst = self.atomize(x.recv, stmts)
+            if not isinstance(lst, Atom):
+                t = self.temp()
+                stmts.append(("let", t, lst))
+                lst = Atom(t)
+            self.declare(name)
+            self.iters[name] = lst
+            return True
+        # 2. `let r = X.last_mut().unwrap();` / `let r = &mut P;` / `let r = a;` (a an alias): an alias of a place (copy-in, write-through)
+        is_alias = (init.kind == "ref" and init.mut) or (init.kind == "mcall" and init.name == "unwrap" and init.recv.kind == "mcall"
+                                                        and init.recv.name == "last_mut") or self.bare_alias(init) is not None
+        if is_alias:
+            pl = self.place_of(init)
+            if pl is None:
+                self.fail("`&mut` of something that is not a place")
+            if not simple:
+                self.fail("`&mut` alias bound by a pattern")
+            chain = self.access(pl, stmts)
+            stmts.append(("let", lname(name), chain[-1]))
+            self.declare(name)
+            if name in self.g.outs:
+                self.fail(f"`let {name}` shadows a `&mut` parameter")
+            self.new_alias(name, pl)
+            return True
+        # 3. a branching initialiser whose branches assign outer variables
+        if init.kind in BRANCHING:
+            v = self.threaded(init, stmts, True)
+            if v is None:
+                return False
+            if not self.irrefutable(st.pat):
+                self.fail("refutable `let` pattern")
+            bound = []
+            ptxt = self.pat(st.pat, bound)
+            stmts.append(("let", ptxt, v))
+            for b in bound:
+                self.declare(b)
+                if b in self.g.outs:
+                    self.fail(f"`let {b}` shadows a `&mut` parameter")
+            return True
+        return False
+
+    def stmt_ext(self, e, stmts):
+        if e.kind in LOOPS:
+            self.loop_stmt(e, stmts)
+            return True
+        if e.kind in BRANCHING:
+            return self.threaded(e, stmts, False) is not None
+        if e.kind == "mcall" and (e.name, len(e.args)) in STD_MUTATORS:
+            pl = self.place_of(e.recv)
+            if pl is None or (pl.root == "self" and self.g.mut_self and self.self_field(e.recv)):
+                return False
+            if not pl.steps and pl.root not in self.aliases:
+                return False        # a plain local variable: the existing rule
+            head = STD_MUTATORS[(e.name, len(e.args))]
+            args = [self.atomize(x, stmts) for x in e.args]
+            self.mutate_place(pl, lambda cur: App(head, [cur] + args), stmts)
+            return True
+        if e.kind == "assign":
+            pl = self.place_of(e.lhs)
+            if pl is None or (pl.root == "self" and self.g.mut_self and self.self_field(e.lhs)):
+                return False
+            if not pl.steps and pl.root not in self.aliases:
+                return False
+            if pl.root == "self" and not pl.steps:
+                return False
+            if e.op != "=":
+                self.fail("compound assignment to a place")
+            self.no_bare_alias([e.rhs], "an assignment")
+            val = self.atomize(e.rhs, stmts)
+            chain = self.access(pl, stmts, upto=max(len(pl.steps) - 1, 0))
+            self.store(pl, chain, val, stmts)
+            return True
+        return False
+
+    # ---- tree-builder extension: loops
+    def iter_header(self, e):
+        """`while let Some(p) = it.next()[.cloned()]` over a registered iterator: (iterator name, list term, pattern p) or None"""
+        if e.kind != "whilelet":
+            return None
+        sc = e.scrut
+        while sc.kind == "paren" or (sc.kind == "mcall" and sc.name in ("cloned", "copied") and not sc.args):
+            sc = sc.e if sc.kind == "paren" else sc.recv
+        if not (sc.kind == "mcall" and sc.name == "next" and not sc.args and sc.recv.kind == "path" and len(sc.recv.segs) == 1
+                and sc.recv.segs[0] in self.iters):
+            return None
+        p = e.pat
+        if not (p.kind == "ptuplestruct" and p.segs == ["Some"] and len(p.items) == 1 and self.irrefutable(p.items[0])):
+            self.fail("`while let` over an iterator must bind `Some(<irrefutable pattern>)`")
+        return sc.recv.segs[0], self.iters[sc.recv.segs[0]], p.items[0]
+
+    def loop_body(self, e):
+        """the body of `loop` / `while` / `while let` as the body of a `loop`"""
+        b = getattr(e, "_desugared", None)
+        if b is None:
+            if e.kind == "loop" or self.iter_header(e) is not None:
+                b = e.body
+            elif e.kind == "while":
+                brk = N("block", stmts=[], tail=N("break"))
+                b = N("block", stmts=[N("exprstmt", e=N("if", cond=e.cond, then=e.body, els=brk))], tail=None)
+            else:
+                arms = [N("arm", pat=e.pat, guard=None, body=e.body), N("arm", pat=N("pwild"), guard=None, body=N("block", stmts=[], tail=N("break")))]
+                b = N("block", stmts=[N("exprstmt", e=N("match", scrut=e.scrut, arms=arms))], tail=None)
+            e._desugared = b
+        return b
+
+    def loop_core(self, e, muts):
+        """the loop body as a function of the loop's variables `muts` (None: discovery pass); returns (body, header, pattern, lookahead)"""
+        hdr = self.iter_header(e)
+        body = self.loop_body(e)
+        self.loops.append(Loop("loop", muts))
+        ptxt, nxt = None, None
+        if hdr is not None:
+            bound = []
+            ptxt = self.pat(hdr[2], bound)
+            nxt = self.temp()
+            self.push(bound)
+            saved = dict(self.cur_iters)
+            self.cur_iters[hdr[0]] = nxt
+            n = self.block(body, thread=Thread(muts, False), merge=True)
+            self.cur_iters = saved
+            self.pop()
+        else:
+            n = self.block(body, thread=Thread(muts, False))
+        self.loops.pop()
+        return n, hdr, ptxt, nxt
+
+    def state_term(self, muts):
+        if muts is None or not muts:
+            return Tup([])
+        names = [Atom("self" if m == "self" else lname(m)) for m in muts]
+        return names[0] if len(names) == 1 else Tup(names)
+
+    def loop_stmt(self, e, stmts):
+        muts = self.discover(e)
+        for m in muts:
+            if not self.can_mutate(m):
+                self.fail(f"the loop assigns `{m}`, which the enclosing block does not return (the rebinding would not escape)")
+        n, hdr, ptxt, nxt = self.loop_core(e, muts)
+        state = render(self.state_term(muts), 0)
+        spat = state if muts else "(_ : Unit)"
+        self.uses_div = True
+        if hdr is not None:
+            loop = App("Rs.forPeek", [hdr[1], Atom(state), Lam([ptxt, nxt, spat], lift(n))], eff=True)
+            del self.iters[hdr[0]]          # the iterator is exhausted (or the function has returned)
+            self.frames[self.frame_index(hdr[0])].discard(hdr[0])
+        else:
+            loop = App("Rs.loopFix", [Lam([spat], lift(n)), Atom(state)], eff=True)
+        if self.loops:
+            loop = App("Rs.liftD", [loop], eff=True)
+        stmts.append(("bind", state if muts else "_", loop))
+        for m in muts:
+            self.note_mut(m)
+            for a, q in list(self.aliases.items()):
+                if q.root == m and a not in muts:
+                    self.kill_alias(a)
+
+    def e_while(self, e):
+        self.fail("a loop in expression position")
+
+    e_whilelet = e_while
+
+    def e_break(self, e):
+        if not self.loops or self.loops[-1].kind != "loop":
+            self.fail("`break` outside a `loop` / `while` (or inside a `for`)")
+        return App("Rs.brk", [self.state_term(self.loops[-1].muts)], eff=True)
+
+    def e_continue(self, e):
+        if not self.loops or self.loops[-1].kind != "loop":
+            self.fail("`continue` outside a `loop` / `while` (or inside a `for`)")
+        return App("Rs.cont", [self.state_term(self.loops[-1].muts)], eff=True)
+
+    # ---- tree-builder extension: method calls on iterators and places
+    def e_mcall_ext(self, e):
+        name, n = e.name, len(e.args)
+        recv = e.recv
+        while recv.kind == "paren":
+            recv = recv.e
+        if recv.kind == "path" and len(recv.segs) == 1 and recv.segs[0] in self.iters:
+            it = recv.segs[0]
+            if name == "peek" and n == 0 and it in self.cur_iters:
+                return Atom(self.cur_iters[it])
+            self.fail(f"the iterator `{it}` is used other than by `while let … = {it}.next()` / `{it}.peek()` inside that loop")
+        if (name, n) in VALUE_MUTATORS:
+            pl = self.place_of(recv)
+            if pl is None:
+                self.fail(f"`{name}` on something that is not a place")
+            stmts = []
+            args = [self.atomize(x, stmts) for x in e.args]
+            chain = self.access(pl, stmts)
+            t = self.temp()
+            stmts.append(("let", t, App(VALUE_MUTATORS[(name, n)], [chain[-1]] + args)))
+            self.store(pl, chain, Atom(t + ".2"), stmts)
+            return mkseq(stmts, Atom(t + ".1"))
+        if name == "unwrap" and n == 0 and recv.kind == "mcall" and recv.name == "last_mut" and not recv.args:
+            pl = self.place_of(e)
+            if pl is None:
+                self.fail("`last_mut()` on something that is not a place")
+            stmts = []
+            chain = self.access(pl, stmts)
+            return mkseq(stmts, chain[-1])
+        if name == "last_mut" and n == 0:
+            self.fail("`last_mut()` other than `X.last_mut().unwrap()` or the scrutinee of a `match` / `if let`")
+        return None
+
+    def call_gen_places(self, g, recv, args):
+        """call of a translated function that returns `&mut` places and / or may diverge"""
+        if g.is_ctx:
+            self.fail(f"{g.lean_name}: `&mut` places / divergence in a function with a context parameter")
+        stmts, terms, places = [], [], []
+        if recv is not None:
+            if g.mut_self:
+                pl = self.place_of(recv)
+                if pl is None:
+                    self.fail(f"`&mut self` method `{g.item.name}` called on something that is not a place")
+                chain = self.access(pl, stmts)
+                places.append((pl, chain))
+                terms.append(chain[-1])
+            else:
+                terms.append(self.atomize(recv, stmts))
+        for k, x in enumerate(args):
+            if k in g.out_idx:
+                pl = self.place_of(x)
+                if pl is None:
+                    self.fail(f"the `&mut` argument {k + 1} of {g.lean_name} is not a place")
+                chain = self.access(pl, stmts)
+                places.append((pl, chain))
+                terms.append(chain[-1])
+            else:
+                terms.append(self.atomize(x, stmts))
+        if len({pl.root for pl, _ in places}) != len(places):
+            self.fail(f"two `&mut` arguments of {g.lean_name} are places inside the same variable")
+        call = App(g.ref_name, terms)
+        t = self.temp()
+        if g.div and (g.item.file, g.item.name) in CONVERGED_CALLS:
+            if g.outs or not g.ret.startswith("Res "):
+                self.fail(f"{g.lean_name} is in CONVERGED_CALLS but does not return a plain Result")
+            stmts.append(("let", t, App("Rs.converged", [Atom('cl!"' + g.item.name + ': diverges"'), call])))
+        elif g.div:
+            self.uses_div = True
+            stmts.append(("bind", t, App("Rs.callD", [call], eff=True)))
+        else:
+            stmts.append(("let", t, call))
+        if not g.outs:
+            return mkseq(stmts, Atom(t))
+        k = len(places)
+        for j, (pl, chain) in enumerate(places):
+            proj = t + ".2" + ".2" * j + (".1" if j < k - 1 else "")
+            self.store(pl, chain, Atom(proj), stmts)
+        return mkseq(stmts, Atom(t + ".1"))
+
+    def verify_rebinds(self, n, ok):
+        """safety net: every rebinding of a place must sit in the statement list of a block (or of a threaded branch); one that
+        was left inside a sub-expression (`a && v.pop()…`, a closure, a guard) would not reach the code after it"""
+        if isinstance(n, Seq):
+            ok = ok or getattr(n, "blockscope", False)
+            if not ok and any(isinstance(p, Rebind) for _, p, _ in n.stmts):
+                self.fail("a mutation of a place inside a sub-expression whose effect on the place cannot be sequenced (`&&` / `||` operand, guard, closure, argument)")
+            for _, _, v in n.stmts:
+                self.verify_rebinds(v, False)
+            self.verify_rebinds(n.final, ok)
+        elif isinstance(n, PureM):
+            self.verify_rebinds(n.term, ok)
+        elif isinstance(n, If):
+            for x in (n.c, n.t, n.e):
+                self.verify_rebinds(x, False)
+        elif isinstance(n, Match):
+            for x in n.scruts:
+                self.verify_rebinds(x, False)
+            for _, b in n.arms:
+                self.verify_rebinds(b, False)
+        elif isinstance(n, Lam):
+            self.verify_rebinds(n.body, False)
+        elif isinstance(n, App):
+            for x in n.args:
+                self.verify_rebinds(x, False)
+        elif isinstance(n, (Tup, ListLit)):
+            for x in n.items:
+                self.verify_rebinds(x, False)
+    # =========================================================================== end of the tree-builder extension: methods
 
     # ---- the function
     def translate(self):
@@ -2592,10 +3507,27 @@ class FnTr:
         names = [n for n, _ in g.params if n not in ("_", "fuel")]
         if g.is_ctx:
             names.append(g.ctx_param)
+        if it.self_kind:
+            names.append("self")    # (tree-builder extension: `self` is a place root like the parameters)
         self.push(names)            # frame 0: parameters
         node = self.block(body)
         self.pop()
-        if g.recursive and not self.attach:
+        # ---- tree-builder extension: recursion through a `&mut` place: no structural termination argument, `partial_fixpoint`
+        if self.t2 and g.recursive and g.outs and not g.div:
+            g.div = True
+            self.reset_pass()
+            g.deps = []
+            self.push(names)
+            node = self.block(body)
+            self.pop()
+        if self.uses_div:
+            g.div = True
+        if g.div and g.is_ctx:
+            self.fail("a function with a context parameter that may diverge (loop / recursion through a place / call of such a function)")
+        if self.t2:
+            self.verify_rebinds(node, True)
+        # ---- end of the tree-builder extension
+        if g.recursive and not g.div and not self.attach:
             # second pass: loops over `List.attach`, so that the recursive calls on the elements come with a membership proof
             self.attach, self.ntemp, self.nloops, self.frames, self.globs, self.ctx_shadowed = True, 0, 0, [], [], False
             g.deps = []
@@ -2609,21 +3541,26 @@ class FnTr:
         trait = f" (impl {it.impl_trait}<{from_desc(it.trait_args[0])[0]}>)" if it.impl_trait == "From" else ""
         doc = f"/-- `{owner}{it.name}`{trait} — src/{it.file} -/\n"
         term = ""
-        if g.recursive:
+        if g.recursive and g.div:
+            term = "partial_fixpoint\n"   # (tree-builder extension)
+        elif g.recursive:
             if not (g.params and g.params[0] == ("self", "Node")):
                 self.fail("recursive function whose `self` is not a Node (no termination measure)")
             unfold = sorted({d.lean_name for d in g.deps if d is not g and not d.is_ctx})
             term = ("termination_by sizeOf self\ndecreasing_by all_goals ((try simp only [" + ", ".join(unfold) +
                     "] at *); exact Rs.node_lt (by assumption))\n")
-        if g.mut_self:
+        if g.outs:   # (tree-builder extension: was `if g.mut_self`, with `self` the only out)
             # the value of the body and the final `self` (the rebindings of `self` are statements of the body block)
             st, fin = (node.stmts, node.final) if isinstance(node, Seq) else ([], node)
-            res = Tup([Atom(TEMP + "r"), Atom("self")])
+            res = Tup([Atom(TEMP + "r")] + [Atom(lname(o)) for o in g.outs])   # (tree-builder extension: all outs)
             node = mkseq(st + bind_stmts(TEMP + "r", fin), App("Except.ok", [res]) if g.has_loop else res)
         elif g.has_loop:
             st, fin = (node.stmts, node.final) if isinstance(node, Seq) else ([], node)
             node = mkseq(st + bind_stmts(TEMP + "r", fin), App("Except.ok", [Atom(TEMP + "r")]))
-        if g.is_ctx:
+        if g.div:   # (tree-builder extension)
+            head = f"def {g.lean_name}{params} : Option ({g.ret}) :=\n  Rs.D.run "
+            text = doc + head + render(lift(node), 2, True)
+        elif g.is_ctx:
             head = f"def {g.lean_name}{params} : St → {g.ret} × St :=\n  Rs.M.run "
             text = doc + head + render(lift(node), 2, True)
         elif node.eff:
@@ -2706,7 +3643,9 @@ ROOTS = [
     "expected_number", "expected_number_or_string", "expected_boolean", "expected_tuple", "expected_fixed_len_tuple",
     "expected_empty", "type_error", "wrong_function_argument_amount_range", "expected_ranged_len_tuple", "addition_error", "subtraction_error", "negation_error", "multiplication_error", "division_error",
     "modulation_error")] + [("value/mod.rs", "Value", "from_int"), ("value/mod.rs", "Value", "from_float"),
-                         ("value/mod.rs", "Value", "str_from"), ("value/mod.rs", "Value", "as_ranged_len_tuple")]
+                         ("value/mod.rs", "Value", "str_from"), ("value/mod.rs", "Value", "as_ranged_len_tuple")] + [
+    # ---- tree-builder extension: the operator / token predicate tables and the tree builder
+    (f, o, n) for (f, o, n) in TREE_BUILD_FNS] + [("token/mod.rs", "Token", n) for n in ("is_leftsided_value", "is_rightsided_value", "is_assignment")]
 # `impl From<A> for B` blocks that give `.into()` its meaning: (file, A, B); translated BEFORE the roots
 # `impl Default for T` blocks that give `Default::default()` its meaning at T: (file, T); translated before the roots
 DEFAULT_IMPLS = [("context/mod.rs", "HashMapContext")]
@@ -2724,6 +3663,7 @@ FROM_IMPLS = [
 
 
 SKIPPED_ARMS = []
+ROOT_KEYS = set(ROOTS)
 
 
 def header(module, imports):
@@ -2766,6 +3706,17 @@ def header(module, imports):
     lines.append("     .error (.panic \"… out of fuel\") (no termination assumption: the agreement theorems prove how much fuel suffices);")
     lines.append("     NodeIter / OperatorIterMut { stack: Vec<slice::Iter<Node>> } ↦ Rs.IterStack (Vec, top = last, of the remaining children);")
     lines.append("     slice iterator `next` through `stack.last_mut()` ↦ Rs.iter_next + write-back (Rs.set_last); Vec::pop ↦ Rs.last / Rs.pop_back")
+    lines.append("   * may-diverge code (tree-builder extension): a function that contains `loop` / `while` / `while let`, or is recursive through a")
+    lines.append("     `&mut` place, or calls such a function, is `Option`-valued (`none` = divergence; Rs.loopFix / recursion by `partial_fixpoint`, no")
+    lines.append("     termination argument assumed). A call of such a function from code translated as total is rendered `Rs.converged`:")
+    for f_, n_ in sorted(CONVERGED_CALLS):
+        lines.append(f"       {f_}::{n_}  ↦ Rs.converged \"{n_}: diverges\" (Gen.{n_} …)   (divergence = a panic outcome no Model function produces)")
+    lines.append("   * places (tree-builder extension): `&mut` parameters / `&mut self` are returned next to the result; a local bound to")
+    lines.append("     `X.last_mut().unwrap()` / `&mut P` / the `Some(r)` of `match X.last_mut()` is a copy of the place's value that is written back")
+    lines.append("     (`Rs.set_last`, `{ x with f := … }`) after every mutation through it (Rust's borrow rules: no other access while it lives);")
+    lines.append("     `Vec` ↦ List with the LAST element as the top (`push` ↦ `++ [x]`, `pop` ↦ (getLast?, dropLast)); `i32` ↦ Nat;")
+    lines.append("     `mem::discriminant` on Operator ↦ Operator.kind; derived `==` on Operator / Token ↦ Rs.Operator.peq / Rs.Token.peq;")
+    lines.append("     `let mut it = xs.iter().peekable(); while let Some(x) = it.next() { … it.peek() … }` ↦ Rs.forPeek (list + lookahead).")
     lines.append("   * state: a context built in place (`&mut HashMapContext::new()`) passed as the context argument ↦ Rs.call_fresh: the callee runs")
     lines.append("     on the state { ctx := .hashMap h, log := [] }, result only (Model: St.fresh / Mode.fresh);")
     lines.append("     HashMap<String, T> ↦ association list (get ↦ alookup, insert ↦ ainsert, clear ↦ []; `*r = v` through the `r` of")
@@ -2838,6 +3789,10 @@ def run():
             body.append(g.text)
             if g.instance:
                 body.append(g.instance)
+            # (tree-builder extension) a function of the tree-builder modules that is not a root has no agreement theorem of its own:
+            # the agreement proofs of its callers unfold it (`simp`), so that extracting a helper is not a proof obligation
+            if m in T2_MODULES and (g.item.file, g.item.impl_type, g.item.name) not in ROOT_KEYS and not g.recursive:
+                body.append(f"attribute [simp] {g.lean_name}\n")
         names = "/-- the functions translated into this module -/\ndef translated" + m + " : List String := [" + \
             ", ".join('"' + g.lean_name + '"' for g in by_mod[m]) + "]\n"
         text = header(m, imports) + "set_option linter.unusedVariables false\nset_option linter.unusedSimpArgs false\n\n" + "\n".join(body) + "\n" + names + "\nend Evalexpr.Gen\n"
